@@ -427,9 +427,11 @@ class BSpline(Spline):
             b_other = other.basis(basis._x)
             basis_product = b_self[:, pairs[0]].multiply(b_other[:, pairs[1]])
             T = basis.transform(lambda y: basis_product.toarray()[y, :])
+            # rows of the coefficient matrices (one column per component of a vector-valued spline)
+            rows = lambda c, idx: c[idx, :] if isinstance(c, (cas.MX, cas.SX, cas.DM)) else c[idx]
             try:
-                coeffs_product = (self.coeffs[pairs[0].tolist()] *
-                                  other.coeffs[pairs[1].tolist()])
+                coeffs_product = (rows(self.coeffs, pairs[0].tolist()) *
+                                  rows(other.coeffs, pairs[1].tolist()))
             except:  # cvxopt, cvxpy, assuming other.coeffs is not a variable
                 S = np.zeros((len(pairs[0]), len(self)))
                 S[[list(range(len(pairs[0]))), pairs[0]]] = 1.
